@@ -5,6 +5,7 @@ import (
 	"fmt"
 	"sort"
 	"strings"
+	"verif/corpus"
 
 	"github.com/zmap/zlint/v3/lint"
 
@@ -353,6 +354,7 @@ func c13Solo(c *mon.Ctx) {
 	if _, ok := lint.GetProfile("no_such_profile"); ok {
 		c.V("unknown-profile-found", "GetProfile answers for a profile that was never registered", "", nil, nil)
 	}
+	c13ProfileHistories(c)
 	mk := func(name string, src lint.LintSource) lint.LintMetadata {
 		return lint.LintMetadata{Name: name, Description: "verif addition", Citation: "verif", Source: src}
 	}
@@ -425,4 +427,87 @@ func init() {
 			return gates
 		},
 	})
+}
+
+// c13ProfileHistories: profiles registered in every way the public API allows - all lint names at once (so the two
+// hyphenated names and every kind are in), one profile per source, a name list with repeats, and the SAME profile
+// name registered two and three times with different lists (whether a later registration replaces or extends the
+// earlier one is not the property's business) - and after each step: every lint named by every registered profile
+// exists, and the profile is usable as a selection that yields exactly the lints it names.
+func c13ProfileHistories(c *mon.Ctx) {
+	g := lint.GlobalRegistry()
+	names := g.Names()
+	exists := func(n string) bool {
+		return g.CertificateLints().ByName(n) != nil || g.RevocationListLints().ByName(n) != nil || g.OcspResponseLints().ByName(n) != nil
+	}
+	check := func(after string) {
+		for _, p := range lint.AllProfiles() {
+			want := map[string]bool{}
+			bad := false
+			for _, n := range p.LintNames {
+				want[n] = true
+				if !exists(n) {
+					bad = true
+					c.V("profile-names-unknown-lint|"+p.Name, fmt.Sprintf("%s: profile %s names lint %q which is not registered", after, p.Name, n), n, nil, nil)
+				}
+			}
+			c.R.Count("evaluations", 1)
+			c.R.Count("profile_history_checks", 1)
+			if bad || len(want) == 0 {
+				continue
+			}
+			var o lint.FilterOptions
+			o.AddProfile(p)
+			r, err := g.Filter(o)
+			if err != nil {
+				c.V("profile-unusable|"+p.Name, fmt.Sprintf("%s: selecting by profile %s fails: %v", after, p.Name, err), "", nil, nil)
+				continue
+			}
+			got := r.Names()
+			ok := len(got) == len(want)
+			for _, n := range got {
+				ok = ok && want[n]
+			}
+			if !ok {
+				c.V("profile-selection|"+p.Name, fmt.Sprintf("%s: profile %s names %d distinct lints, selecting by it yields %d", after, p.Name, len(want), len(got)), "", nil, nil)
+			}
+		}
+	}
+	reg := func(name string, l []string) {
+		lint.RegisterProfile(lint.Profile{Name: name, Description: "verif", Citation: "verif", Source: "verif", LintNames: l})
+	}
+	reg("verif_all", append([]string{}, names...))
+	check("after a profile with every lint name")
+	var hyph, crl []string
+	for _, li := range Inv {
+		if strings.ContainsAny(li.Name, "-") {
+			hyph = append(hyph, li.Name)
+		}
+		if li.Kind != corpus.Cert {
+			crl = append(crl, li.Name)
+		}
+	}
+	c.R.Note("hyphenated_lint_names", hyph)
+	bySrc := map[lint.LintSource][]string{}
+	for _, li := range Inv {
+		bySrc[li.Meta.Source] = append(bySrc[li.Meta.Source], li.Name)
+	}
+	for _, src := range allSources() {
+		reg("verif_src_"+strings.ToLower(string(src)), bySrc[src])
+	}
+	check("after one profile per source")
+	reg("verif_repeats", []string{names[0], names[1], names[0], names[1], names[2]})
+	check("after a profile with repeated names")
+	// the same profile name registered again: first half, then second half (which holds the hyphenated names or not),
+	// then the CRL / OCSP names, then everything
+	half := len(names) / 2
+	reg("verif_twice", append([]string{}, names[:half]...))
+	check("after the first registration of a profile name")
+	reg("verif_twice", append([]string{}, names[half:]...))
+	check("after the SECOND registration of the same profile name")
+	reg("verif_twice", append(append([]string{}, hyph...), crl...))
+	check("after the THIRD registration of the same profile name")
+	reg("verif_src_"+strings.ToLower(string(lint.MozillaRootStorePolicy)), append([]string{}, names...))
+	check("after re-registering a per-source profile with every name")
+	c.R.Distinct("profiles_checked", "profile histories (registered by the harness)")
 }
